@@ -14,30 +14,30 @@ from qce_circuit.utilities.custom_exceptions import (
 from qce_circuit.utilities.custom_warnings import OperationNotFoundWarning
 
 
-_START_TIME_MEMO: Optional[dict] = None
-"""Memo shared by the (recursive) start-time evaluation of a single top-level query. None when no query is running."""
+_QUERY_MEMO: Optional[dict] = None
+"""Memo shared by the (recursive) evaluation of a single top-level timing query. None when no query is running."""
 
 
 def query_scoped_cache(method):
     """
-    Decorator, memoizes method results only for the duration of the outermost call.
-    Start times depend on upstream operations and on (dynamic) duration settings,
+    Decorator, memoizes method results only for the duration of the outermost decorated call.
+    Start times and block durations depend on upstream operations and on (dynamic) duration settings,
     results can therefore not outlive the query that computed them.
     """
-    def wrapper(self, duration: float) -> float:
-        global _START_TIME_MEMO
-        outermost: bool = _START_TIME_MEMO is None
+    def wrapper(self, *args, **kwargs):
+        global _QUERY_MEMO
+        outermost: bool = _QUERY_MEMO is None
         if outermost:
-            _START_TIME_MEMO = {}
+            _QUERY_MEMO = {}
         try:
-            key = (id(self), duration)
-            if key not in _START_TIME_MEMO:
+            key = (method.__qualname__, id(self)) + args + tuple(sorted(kwargs.items()))
+            if key not in _QUERY_MEMO:
                 # Keeps reference to self, such that its id can not be reused within this query
-                _START_TIME_MEMO[key] = (self, method(self, duration))
-            return _START_TIME_MEMO[key][1]
+                _QUERY_MEMO[key] = (self, method(self, *args, **kwargs))
+            return _QUERY_MEMO[key][1]
         finally:
             if outermost:
-                _START_TIME_MEMO = None
+                _QUERY_MEMO = None
     wrapper.cache_clear = lambda: None
     wrapper.__doc__ = method.__doc__
     return wrapper
